@@ -1,24 +1,82 @@
-"""Witness search / replay against the REAL crates (not the deciding step; DESIGN 3.5)."""
+"""Witness search / replay against the REAL crates (not the deciding step; DESIGN 3.5).
+
+The crate /verif/replay depends on the two /repo crates by path and is rebuilt (offline, with
+`--cfg glass_easel_verif`) from /repo's working tree before every use."""
 import json
 import os
 import subprocess
-import sys
 
 VERIF = os.path.dirname(os.path.dirname(os.path.abspath(__file__)))
+CRATE = os.path.join(VERIF, "replay")
+BIN = os.path.join(VERIF, ".cache", "target", "debug", "vxreplay")
+_built = {"ok": None, "log": ""}
+
+
+def build():
+    if _built["ok"] is not None:
+        return _built["ok"]
+    env = dict(os.environ, CARGO_NET_OFFLINE="true")
+    try:
+        p = subprocess.run(["cargo", "build", "--offline"], cwd=CRATE, env=env, capture_output=True, text=True, timeout=900)
+        _built["ok"] = p.returncode == 0
+        _built["log"] = p.stderr[-2000:]
+    except Exception as e:  # noqa
+        _built["ok"] = False
+        _built["log"] = str(e)
+    return _built["ok"]
+
+
+def has_generator(unit):
+    return os.path.exists(os.path.join(CRATE, "src", unit.lower() + "_unit.rs"))
+
+
+def _run(args, timeout=120):
+    try:
+        p = subprocess.run([BIN] + args, capture_output=True, text=True, timeout=timeout)
+    except subprocess.TimeoutExpired:
+        return {"found": True, "input": " ".join(args), "observed": "no result within %ds (hang)" % timeout, "expected": "termination", "evaluations": 0, "bound": "timeout"}
+    out = p.stdout.strip().split("\n")[-1] if p.stdout.strip() else ""
+    try:
+        d = json.loads(out)
+    except Exception:
+        if p.returncode not in (0, 1, 2):
+            # the real code panicked / aborted inside the harness
+            return {"found": True, "input": " ".join(args), "observed": "process died rc=%d: %s" % (p.returncode, p.stderr[-400:]), "expected": "normal return", "evaluations": 0, "bound": "n/a"}
+        return None
+    return d
 
 
 def search_witness(prop, unit, fnpath, failure):
     """returns {"found": bool, ...} or None when the unit has no witness generator"""
-    return None
+    if not has_generator(unit):
+        return None
+    if not build():
+        return {"found": False, "error": "replay crate did not build: " + _built["log"][-500:]}
+    d = _run([unit, "search"])
+    if d is None:
+        return {"found": False, "error": "witness generator produced no result"}
+    d["kind"] = "bounded search on the real crate (not the deciding step)"
+    d["replay_args"] = [unit, "run", d.get("input", "")]
+    return d
 
 
 def replay_file(path):
     doc = json.load(open(path))
-    print("replay of", doc.get("obligation"))
+    print("replay of obligation", doc.get("obligation"))
     for o in doc.get("verifier_output", []):
         print(o)
     w = doc.get("witness")
     if not w or not w.get("found"):
-        print("no concrete failing input was recorded (no-failing-input-found); the obligation above is the violation")
+        print("no concrete failing input was recorded (no-failing-input-found); the failed obligation above is the violation")
         return 1
-    return 1
+    if not build():
+        print("replay crate did not build:", _built["log"][-500:])
+        return 2
+    d = _run(w["replay_args"])
+    print("input:", w.get("input"))
+    print("on the current tree:", json.dumps(d))
+    if d and d.get("found"):
+        print("REPRODUCED: observed %r, expected %s" % (d.get("observed"), d.get("expected")))
+        return 1
+    print("not reproduced on the current tree")
+    return 0
